@@ -1,0 +1,97 @@
+//go:build verif
+// +build verif
+
+package cli
+
+import (
+	"io"
+
+	"github.com/jawher/mow.cli/internal/fsm"
+	"github.com/jawher/mow.cli/internal/lexer"
+	"github.com/jawher/mow.cli/internal/matcher"
+)
+
+// This file is only compiled with -tags verif. It adds observation points for the runtime monitors kept in /verif;
+// it does not change any existing behaviour.
+
+// VerifSetExiter replaces the function called to end the process (os.Exit by default)
+func VerifSetExiter(f func(int)) { exiter = f }
+
+// VerifSetStdErr replaces the stream help and error messages are written to
+func VerifSetStdErr(w io.Writer) { stdErr = w }
+
+// VerifSetStdOut replaces the standard output stream of the package
+func VerifSetStdOut(w io.Writer) { stdOut = w }
+
+// VerifToken is one token of a spec string as reported by the lexer
+type VerifToken struct {
+	Typ string
+	Val string
+	Pos int
+}
+
+// VerifTokenize runs the spec lexer; on failure it returns the position carried by the error
+func VerifTokenize(spec string) (toks []VerifToken, errPos int, err error) {
+	ts, err := lexer.Tokenize(spec)
+	if err != nil {
+		p, _, _ := VerifParseErrorPos(err)
+		return nil, p, err
+	}
+	for _, t := range ts {
+		toks = append(toks, VerifToken{string(t.Typ), t.Val, t.Pos})
+	}
+	return toks, -1, nil
+}
+
+// VerifParseErrorPos extracts the position and input carried by a spec error (the value Run panics with)
+func VerifParseErrorPos(v interface{}) (pos int, input string, ok bool) {
+	if pe, isPE := v.(*lexer.ParseError); isPE {
+		return pe.Pos, pe.Input, true
+	}
+	return 0, "", false
+}
+
+// VerifTrans is one transition of the compiled recogniser
+type VerifTrans struct {
+	Kind  string
+	Names []string
+	To    int
+}
+
+// VerifState is one state of the compiled recogniser
+type VerifState struct {
+	Terminal bool
+	Trans    []VerifTrans
+}
+
+// VerifCompile compiles the spec of the root command and dumps the resulting state graph (state 0 is the start)
+func VerifCompile(c *Cli) (states []VerifState, err error) {
+	if err := c.doInit(); err != nil {
+		return nil, err
+	}
+	idx := map[*fsm.State]int{}
+	var order []*fsm.State
+	var visit func(s *fsm.State) int
+	visit = func(s *fsm.State) int {
+		if i, ok := idx[s]; ok {
+			return i
+		}
+		i := len(order)
+		idx[s] = i
+		order = append(order, s)
+		for _, tr := range s.Transitions {
+			visit(tr.Next)
+		}
+		return i
+	}
+	visit(c.fsm)
+	for _, s := range order {
+		vs := VerifState{Terminal: s.Terminal}
+		for _, tr := range s.Transitions {
+			k, n := matcher.VerifDescribe(tr.Matcher)
+			vs.Trans = append(vs.Trans, VerifTrans{k, n, idx[tr.Next]})
+		}
+		states = append(states, vs)
+	}
+	return states, nil
+}
